@@ -14,7 +14,7 @@ from . import common as C, proggen as P, progrun as R
 from .c18 import TOKEN
 
 PROP = "C15"
-MODULES = ["RuschmProofs.C15"]
+MODULES = ["RuschmProofs.C15", "RuschmProofs.C15More"]
 
 
 def render(rng, forms):
